@@ -4,6 +4,7 @@ package main
 
 import (
 	"fmt"
+	"go/token"
 	"sort"
 	"strings"
 
@@ -337,6 +338,72 @@ func checkC08(r *Result) {
 		}
 		sort.Strings(fs)
 		r.check(okS, "SNAPSHOT-NEIGHBOURS", "(x/bridge/keeper.Keeper).CreateSnapshot # the stored snapshot record repeats the encoded timestamp and neighbours", P.Pos(cs.Pos()), fmt.Sprintf("stored fields: %v", fs))
+	}
+	// FlagAggregateReport finds the aggregate of a disputed report through the MicroHeight index: wherever an
+	// aggregate is given its AggregateReporter it is also given MicroHeight, the block number of that same report
+	{
+		nRoots := 0
+		for _, fn := range P.RepoFuncs {
+			if fn.Pkg == nil || !strings.HasSuffix(fn.Pkg.Pkg.Path(), "/x/oracle/keeper") {
+				continue
+			}
+			type rootInfo struct {
+				rep, height *Term
+				pos         token.Pos
+			}
+			roots := map[ssa.Value]*rootInfo{}
+			var order []ssa.Value
+			for _, b := range fn.Blocks {
+				for _, in := range b.Instrs {
+					st, ok := in.(*ssa.Store)
+					if !ok {
+						continue
+					}
+					fa, ok := st.Addr.(*ssa.FieldAddr)
+					if !ok {
+						continue
+					}
+					f := fieldName(fa.X.Type(), fa.Field)
+					if f != "x/oracle/types.Aggregate.AggregateReporter" && f != "x/oracle/types.Aggregate.MicroHeight" {
+						continue
+					}
+					ri := roots[fa.X]
+					if ri == nil {
+						ri = &rootInfo{pos: st.Pos()}
+						roots[fa.X] = ri
+						order = append(order, fa.X)
+					}
+					if strings.HasSuffix(f, "AggregateReporter") {
+						ri.rep = tm.Of(st.Val)
+					} else {
+						ri.height = tm.Of(st.Val)
+					}
+				}
+			}
+			for _, root := range order {
+				ri := roots[root]
+				if ri.rep == nil {
+					continue
+				}
+				nRoots++
+				origin := func(t *Term, field string) string {
+					if t != nil && strings.HasPrefix(t.Op, "field:x/oracle/types.MicroReport."+field) && len(t.Args) == 1 {
+						return t.Args[0].String()
+					}
+					return ""
+				}
+				or, oh := origin(ri.rep, "Reporter"), origin(ri.height, "BlockNumber")
+				ok := or != "" && or == oh
+				det := "AggregateReporter: " + ri.rep.Brief() + " ; MicroHeight: "
+				if ri.height == nil {
+					det += "not set"
+				} else {
+					det += ri.height.Brief()
+				}
+				r.check(ok, "FLAG-ONLY", FuncName(TopFunc(fn))+" # an aggregate that names its reporter is indexed under that report's block number", P.Pos(ri.pos), det)
+			}
+		}
+		r.check(nRoots >= 2, "FLAG-ONLY", "aggregate builders that name the determining reporter", "-", fmt.Sprint(nRoots))
 	}
 	r.minCount("WRITERS", 5)
 	r.minCount("FLAG-ONLY", 4)
